@@ -23,7 +23,7 @@ func init() {
 			"(R-TYPEERR / R-ARITY / R-IFACEEQ / R-DIV0 as in C18) for all built-ins; (R-NILNIL) at every return of Compile either the error is non-nil or the *Expr is a fresh allocation; (R-NOFAIL) no panic, os.Exit, log.Fatal, go statement in the closure and optimizers have no failure channel; (R-STATELESS-TABLE) as in C10. " +
 			"NOT decided: termination of the lexer/parser loops and recursion, 'positions strictly increasing' (depends on scIdx > i, a table value), blocking on an unconsumed EventChan (a precondition of event mode), everything in class 2. (R-ERRDROP) no return of the API closure yields a nil error on the non-nil edge of an error obtained from a call: a swallowed parser error is how a nil node reaches a dereference, which the ledger itself does not model.",
 		Run:       runC06,
-		Witnesses: c06Witnesses,
+		Witnesses: append(append([]Witness{}, delWitnessesC06...), c06Witnesses...),
 	})
 }
 
@@ -325,6 +325,41 @@ var errDropAllowed = map[string]string{}
 func ruleErrDrop(w *World, r *Report, set map[*ssa.Function]bool) {
 	const rule = "R-ERRDROP"
 	r.Rule(rule, "in the API closure no return reports success (nil error) on the non-nil edge of an error obtained from a call, except the listed deliberate 'no answer' conversions", 40)
+	// an error result is never thrown away: every call in the closure whose last result is an error has that result
+	// looked at (tested, returned, wrapped or stored) — `_ = p.eat(rParen)` lets a malformed source compile
+	for _, fn := range w.SortedFuncs(set) {
+		name := w.Name(fn)
+		EachInstr(fn, func(in ssa.Instruction) {
+			c, ok := in.(*ssa.Call)
+			if !ok {
+				return
+			}
+			sig := c.Call.Signature()
+			if sig == nil || sig.Results().Len() == 0 || !isErrorType(sig.Results().At(sig.Results().Len()-1).Type()) {
+				return
+			}
+			callee := calleeFullName(&c.Call)
+			if callee == "" {
+				callee = "dynamic call"
+			}
+			// library callees whose error is documented to be always nil
+			switch callee {
+			case "(*strings.Builder).WriteString", "(*strings.Builder).WriteRune", "(*strings.Builder).WriteByte", "(*strings.Builder).Write", "fmt.Fprintf", "fmt.Fprint", "fmt.Fprintln", "fmt.Println", "fmt.Printf", "fmt.Print":
+				return
+			}
+			used := false
+			if sig.Results().Len() == 1 {
+				used = len(referrers(c)) > 0
+			} else {
+				for _, ref := range referrers(c) {
+					if ex, okx := ref.(*ssa.Extract); okx && ex.Index == sig.Results().Len()-1 && len(referrers(ex)) > 0 {
+						used = true
+					}
+				}
+			}
+			r.Check(used, rule, w.InstrPos(c), name, "error result of "+callee, "the error is looked at", "the error result of this call is thrown away: a failure is silently turned into success (a malformed source compiles, a missing node is dereferenced)")
+		})
+	}
 	for _, fn := range w.SortedFuncs(set) {
 		res := fn.Signature.Results()
 		if res.Len() == 0 || !isErrorType(res.At(res.Len()-1).Type()) {
